@@ -249,6 +249,12 @@ pub fn oracle_store(case: &ZoneCase, st: &mut Stats) -> Verdict {
     if rejected > 0 {
         st.class("with-rejected-add");
     }
+    let widest = model.nodes.values().map(|n| n.rrsets.len()).max().unwrap_or(0);
+    if widest >= 17 {
+        st.class("node-with-17-or-more-RRsets");
+    } else if widest >= 8 {
+        st.class("node-with-8-to-16-RRsets");
+    }
     if model.nodes.values().any(|n| n.rrsets.values().any(|rs| rs.rdatas.iter().any(|r| r.len() >= 32768))) {
         st.class("zone-holding-RDATA-of-32768-octets-or-more");
     }
@@ -503,6 +509,8 @@ pub fn zone_case(max_adds: usize, for_lookup: bool) -> impl Strategy<Value = Zon
                 1 => Just(mr::T_MX),
                 1 => Just(mr::T_SOA),
                 1 => Just(99u16),
+                // many more types (so that one owner can hold dozens of RRsets)
+                3 => prop_oneof![100u16..140, Just(mr::T_PTR), Just(mr::T_HINFO), Just(mr::T_MINFO), Just(mr::T_MB), Just(mr::T_MG), Just(mr::T_MR), Just(mr::T_SRV), Just(257u16), Just(65280u16), Just(65534u16)],
             ],
             if for_lookup { prop::bool::weighted(0.98).boxed() } else { prop::bool::weighted(0.9).boxed() },
             prop_oneof![6 => Just(300u32), 2 => Just(600u32), 1 => Just(0x8000_0001u32)],
@@ -510,9 +518,16 @@ pub fn zone_case(max_adds: usize, for_lookup: bool) -> impl Strategy<Value = Zon
         )
     };
     (apex, class, prop::collection::vec(add(), 0..max_adds), prop::collection::vec(prop::collection::vec(zone_label(), 1..6), 0..4)).prop_map(move |(apex, class, adds, probes)| {
+        let crowd = adds.len() % 3 == 0;
         let adds = adds
             .into_iter()
             .map(|(rel, outside, mask, rtype, class_ok, ttl, sel)| {
+                // (crowded zones: three records in four go to the apex or to one fixed name)
+                let (rel, rtype) = if crowd && sel % 4 != 0 {
+                    (if sel % 8 < 6 { vec![b"crowd".to_vec()] } else { Vec::new() }, if sel % 3 != 0 { 60 + (sel >> 3) % 45 } else { rtype })
+                } else {
+                    (rel, rtype)
+                };
                 // no NS at wildcard owners for lookups (RFC 4592 §4.2: undefined)
                 let rtype = if for_lookup && rtype == mr::T_NS && rel.first().map_or(false, |l| l == b"*") { mr::T_TXT } else { rtype };
                 AddOp {
